@@ -11,13 +11,17 @@ FN_DYN = ["f0", "f1", "f2", "m0"]
 FN_CPP = ["f0", "f1", "c0"]
 FN_MEM = ["m0", "m1", "f2"]
 CLASSES = ["C0", "C1"]
-PROBE_FN = ["f0", "f1", "f2", "c0", "m0", "m1", "C0", "C1"]
+PROBE_FN = ["f0", "f1", "f2", "c0", "m0", "m1", "C0", "C1", "mf0"]
 GLOBALS = ["g0", "g1", "g2"]
 TYPES = ["T0", "T1"]
-PROBE_G = GLOBALS + [t + "_type" for t in TYPES]
+PROBE_T = TYPES + ["MT0"]
+PROBE_G = GLOBALS + [t + "_type" for t in PROBE_T]
 LOCALS = ["l0", "l1"]
 FILES = ["a", "b", "c"]
-HEADER = "N %s | V %s | T %s | L %s" % (" ".join(PROBE_FN), " ".join(PROBE_G), " ".join(TYPES), " ".join(LOCALS))
+MODS = ["vm0", "vm1"]
+# content of the two loadable modules of harness/h_engine_mod.cpp (kind k: k mod 10 int parameters)
+MODULES = "%vm0 t MT0 2 | %vm0 c mf0 10 9001 | %vm0 c f0 11 9002 | %vm0 c f1 10 9003 | %vm1 t T0 3 | %vm1 c c0 12 9004"
+HEADER = "N %s | V %s | T %s | L %s | %s" % (" ".join(PROBE_FN), " ".join(PROBE_G), " ".join(PROBE_T), " ".join(LOCALS), MODULES)
 
 
 class Gen:
@@ -64,6 +68,7 @@ class Gen:
 
     def history(self):
         r = self.r
+        self.site = 0
         segs = [HEADER]
         for f in FILES:
             n = r.randrange(0, 4)
@@ -93,9 +98,11 @@ class Gen:
                 st = ["t %s %d" % (r.choice(TYPES), r.randrange(4))]
             elif x < 0.73:
                 st = ["l %s %d" % (r.choice(LOCALS), r.randrange(100))]
-            elif x < 0.83:
+            elif x < 0.81:
                 st = ["u " + r.choice(FILES + (["zz"] if r.random() < 0.1 else []))]
-            elif x < 0.91 or nsnap == 0:
+            elif x < 0.85:
+                st = ["m " + r.choice(MODS)]
+            elif x < 0.92 or nsnap == 0:
                 st = ["S"]
                 nsnap += 1
             else:
@@ -158,7 +165,7 @@ def steps_of(case):
     pre, steps = [], []
     for s in segs:
         w = s.split(" ")[0]
-        if w in ("N", "V", "T", "L") or w[0] in "@%":
+        if w in ("N", "V", "T", "L") or w[0] in "@%":  # prelude
             pre.append(s)
         elif w == "+":
             steps[-1].append(s)
@@ -171,9 +178,27 @@ def join_case(pre, steps):
     return " | ".join(pre + [s for st in steps for s in st])
 
 
+def build_module():
+    """the shared object with the two loadable modules, against the current headers (cached)"""
+    src = os.path.join(vlib.ROOT, "harness", "h_engine_mod.cpp")
+    flags = ["-std=c++20", "-w", "-O0", "-fPIC", "-shared", "-D" + vlib.GUARD, "-I" + os.path.join(vlib.REPO, "include"), "-I" + os.path.join(vlib.ROOT, "harness")]
+    key = vlib.sha(vlib.include_hash(), vlib.read(src, "rb"), vlib.read(os.path.join(vlib.ROOT, "harness", "h_engine_types.hpp"), "rb"), " ".join(flags))[:24]
+    out = os.path.join(vlib.BUILD, "obj", key + ".so")
+    if not os.path.exists(out):
+        os.makedirs(os.path.dirname(out), exist_ok=True)
+        rc, o, e = vlib.run(["g++"] + flags + [src, "-o", out + ".tmp%d" % os.getpid()], timeout=900)
+        if rc != 0:
+            raise vlib.BuildError("module build failed: " + e.decode(errors="replace")[-3000:])
+        os.replace(out + ".tmp%d" % os.getpid(), out)
+    return out
+
+
 class Runner:
     def __init__(self, scratch):
         self.scratch = scratch
+        so = build_module()
+        for m in MODS:
+            shutil.copy(so, os.path.join(scratch, m + ".so"))
         self.hbin = vlib.cxx_build("h_engine")
         self.sbin = vlib.model_build("enginespec", ["theories/EngineSpecRun.vo"])
         try:
@@ -221,6 +246,7 @@ def shrink(rn, case, budget=80):
 
 
 def warm():
+    build_module()
     vlib.cxx_build("h_engine")
     vlib.model_build("enginespec", ["theories/EngineSpecRun.vo"])
     vlib.model_build("engine", ["theories/EngineRun.vo"])
@@ -230,13 +256,13 @@ def check(tier, seed):
     c = vlib.Check("C15", tier, seed)
     c.cov["rule"] = ("case = one history (<= 25 steps) over {script def / overload with arities 0-2 and guards, C++ function of 3 callable kinds, class "
                      "block / out-of-class member, multi-statement script, global decl / add_global / set_global / assignment, add type, local, use(file) of 3 "
-                     "generated files, get_state, set_state(any earlier snapshot)}; after every step the live tables are read through four independent routes "
+                     "generated files, load_module of 2 modules, get_state, set_state(any earlier snapshot)}; after every step the live tables are read through four independent routes "
                      "and every snapshot taken so far is dumped; non-trivial = the history restores a snapshot after at least one successful addition made "
                      "since that snapshot; distinct = distinct history lines")
     c.assumptions = ["the model of a function's identity is (definition site, evaluation); the harness identifies Proxy_Function objects by address (kept alive), "
                      "both are renamed by order of first appearance before diffing",
                      "translator tools/translate/t_EngineState.py (shape recogniser over dispatchkit.hpp, chaiscript_engine.hpp, quick_flat_map.hpp)",
-                     "active_loaded_modules is modelled (OModule) but not exercised by the correspondence (needs a dlopen-able module)",
+                     "loadable modules: the content of harness/h_engine_mod.cpp is mirrored by hand in the `%vm0/%vm1` prelude of every history (tools/p_C15.py MODULES)",
                      "extraction: ExtrOcamlBasic + ExtrOcamlString, no Extract Constant; OCaml driver does line I/O only"]
     c.prove("Properties_C15", translators=["EngineState"])
     scratch = tempfile.mkdtemp(prefix="verif_c15_", dir="/tmp")
@@ -270,7 +296,7 @@ def check(tier, seed):
                     seen = True
                 elif k == "R" and seen and added and o == "OK":
                     nontrivial.add(case)
-                elif seen and o == "OK" and k in ("d", "c", "ka", "km", "kc", "g", "G", "s", "t", "u"):
+                elif seen and o == "OK" and k in ("d", "c", "ka", "km", "kc", "g", "G", "s", "t", "u", "m"):
                     added = True
             if m is not None and ci != canon(m):
                 ndis += 1
